@@ -22,6 +22,7 @@ import (
 	"sort"
 	"strings"
 	"sync"
+	"sync/atomic"
 	"time"
 
 	"verifharness/lib"
@@ -92,7 +93,7 @@ func lastJSONLine(out []byte, v interface{}) bool {
 func runBatches(c *lib.Ctx, bs []batch, handle func(b batch, r *childResult)) {
 	var wg sync.WaitGroup
 	sem := make(chan struct{}, parallel)
-	var seq int64
+	var seq, trips int64
 	var mu sync.Mutex
 	for _, b := range bs {
 		wg.Add(1)
@@ -101,7 +102,9 @@ func runBatches(c *lib.Ctx, bs []batch, handle func(b batch, r *childResult)) {
 			defer wg.Done()
 			defer func() { <-sem }()
 			lo := b.lo
-			for attempts := 0; lo < b.hi && attempts < 50; attempts++ {
+			// a handful of exhausted guards settle the verdict; going on would only
+			// burn the guard budget once per affected case
+			for attempts := 0; lo < b.hi && attempts < 50 && atomic.LoadInt64(&trips) < 6; attempts++ {
 				mu.Lock()
 				seq++
 				jp := filepath.Join(c.Dir, fmt.Sprintf("journal-%s-%d.bin", b.mode, seq))
@@ -119,6 +122,7 @@ func runBatches(c *lib.Ctx, bs []batch, handle func(b batch, r *childResult)) {
 						fmt.Sprintf("parsing one input exhausted the child's %s guard (the parse neither returned nor failed)", res.Trip),
 						map[string]interface{}{"case": b.regen(res.TripIdx), "mode": b.mode, "label": b.label, "index": res.TripIdx})
 					c.Eval(1)
+					atomic.AddInt64(&trips, 1)
 					lo = res.TripIdx + 1
 				case ok && res.Done >= b.hi:
 					lo = b.hi
